@@ -15,10 +15,12 @@ var c05Opts = bridge.GenOpts{
 	PrefixIds:   true,
 	Bursts:      true,
 	BigAmounts:  true,
+	Whale:       true,
+	BlockTimes:  true,
 	MaxVals:     5,
 	Denoms:      3,
 	Holders:     true,
-	Weights:     map[string]int{"burst": 3, "hostile": 10, "oprice": 3, "oholders": 3, "byz": 3, "sign": 2, "send2": 3},
+	Weights:     map[string]int{"burst": 3, "hostile": 10, "oprice": 3, "oholders": 3, "byz": 3, "sign": 2, "send2": 3, "xwhale": 3},
 }
 
 func TestC05(t *testing.T) {
